@@ -286,13 +286,20 @@ class _Run:
                 struct = self.structure(ssc)
                 ssc.start()
                 ticks = []
-                for t, env in self.hist:
+                for entry in self.hist:
+                    t, env = entry[0], entry[1]
                     for h, ls in env:
                         for name, lines in ls:
                             if not os.path.exists(os.path.join(self.dirs[h], name)):
                                 _write(self.dirs[h], name, lines)
                     self.events = []
-                    vc.fire(float(t))
+                    if len(entry) == 2:
+                        vc.fire(float(t))
+                    else:
+                        # the harness walks the nodes itself, in the order the case prescribes
+                        n = len(ssc._dstreams)
+                        for x in entry[2]:
+                            ssc._dstreams[x % n]._step(float(t))
                     states = []
                     for d in ssc._dstreams:
                         r = d._current_rdd
@@ -411,6 +418,8 @@ def oracle(case, result):
     prog, hist = case
     if isinstance(result, Err):
         return (f'run:{result.name}', 'building or stepping the streams raised')
+    if any(len(e) != 2 for e in hist):
+        return None   # harness-driven stepping order: model tie only, the property is about the callback
     struct, hn, ticks = result
     n = len(struct)
     sources = [i for i, (k, _) in enumerate(struct) if k == 0]
@@ -711,10 +720,32 @@ def systematic():
     return cases
 
 
+def gen_order_case(rng):
+    """Same programs, but the harness steps the registered nodes itself: sinks only, a random
+    permutation, or a random sequence with repetitions and omissions."""
+    prog, hist = gen_case(rng)
+    out = []
+    for t, env in hist:
+        r = rng.random()
+        if r < 0.25:
+            out.append((t, env))
+        elif r < 0.5:
+            out.append((t, env, [-1 - j for j in range(rng.randint(1, 3))]))      # the last registered nodes (actions)
+        elif r < 0.75:
+            perm = list(range(40))
+            rng.shuffle(perm)
+            out.append((t, env, perm))                                            # every node, shuffled (with repeats mod n)
+        else:
+            out.append((t, env, [rng.randrange(40) for _ in range(rng.randint(1, 8))]))
+    return (prog, out)
+
+
 def generate(rng, tier):
     cases = list(_corpus())
     cases += systematic()
     n_rand, n_file = (700, 120) if tier == 'quick' else (9000, 1500)
+    for _ in range(150 if tier == 'quick' else 1500):
+        cases.append(gen_order_case(rng))
     for _ in range(n_rand):
         cases.append(gen_case(rng))
     for _ in range(n_file):
@@ -736,6 +767,8 @@ def _tuplify(c):
 
 def kind(case):
     prog, hist = case
+    if any(len(e) != 2 for e in hist):
+        return 'order'
     if any(c[0] == FILE for c in prog):
         return 'file'
     nsrc = sum(1 for c in prog if c[0] in (QUEUE, FILE))
@@ -759,6 +792,8 @@ def shrink_candidates(case):
     # fewer ticks
     for i in range(len(hist)):
         yield (prog, hist[:i] + hist[i + 1:])
+    if any(len(e) != 2 for e in hist):
+        return
     # drop a call nobody refers to
     for i in range(len(prog) - 1, -1, -1):
         used = False
